@@ -206,7 +206,7 @@ def main():
               entry['verdict'] = 'known-finding'
             else:
               h = hashlib.sha1(json.dumps([o['oid'], args], sort_keys=True).encode()).hexdigest()[:12]
-              rdir = os.path.join(VERIF, 'replays', pid)
+              rdir = os.path.join(os.environ.get('VERIF_REPLAY_DIR', os.path.join(VERIF, 'replays')), pid)
               os.makedirs(rdir, exist_ok=True)
               rpath = os.path.join(rdir, h + '.json')
               json.dump({'property': pid, 'obligation': o['oid'], 'harness': o['harness'], 'fn': o['fn'],
@@ -276,8 +276,9 @@ def main():
       'wall_s': round(time.time() - t0, 1),
       'violations': len(violations),
   }
-  os.makedirs(os.path.join(VERIF, 'evidence'), exist_ok=True)
-  json.dump(evidence, open(os.path.join(VERIF, 'evidence', pid + '.json'), 'w'), indent=1)
+  evdir = os.environ.get('VERIF_EVIDENCE_DIR', os.path.join(VERIF, 'evidence'))   # redirected only by tools/run_seeds.py
+  os.makedirs(evdir, exist_ok=True)
+  json.dump(evidence, open(os.path.join(evdir, pid + '.json'), 'w'), indent=1)
 
   for e in per_obl:
     print('%-44s %-14s paths=%-5s confirmed=%-5s cpu=%ss  %s' % (
